@@ -147,6 +147,15 @@ def composition(p, basis, mixture=None):
         type=CompositionType.molar)
 
 
+def exact_permeance(value_kg, unit, mw):
+    """a Permeance holding `value_kg` kg/(m2 h kPa) expressed in `unit`, by exact rational factors - the harness never
+    prepares its inputs with the library's own convert (a slip or a cache in there would poison the oracle)."""
+    if unit == Units.kg_m2_h_kPa:
+        return Permeance(value=value_kg, units=unit)
+    si = Fraction(value_kg) / (Fraction(mw) * 3600)
+    return Permeance(value=float(si if unit == "SI" else si / Fraction("3.35e-10")), units=unit)
+
+
 # ---------------------------------------------------------------------------------------------
 # membranes
 # ---------------------------------------------------------------------------------------------
@@ -166,9 +175,7 @@ def make_membrane(mixture, p1, p2, t_ref, ea1=None, ea2=None, extra_temps=(), un
         temps = [t_ref] + list(extra_temps)
         for t in temps:
             val = p if t == t_ref else p * float(numpy.exp(-true_ea / R * (1 / t - 1 / t_ref)))
-            perm = Permeance(value=val, units=Units.kg_m2_h_kPa)
-            if units != Units.kg_m2_h_kPa:
-                perm = perm.convert(to_units=units, component=comp)
+            perm = exact_permeance(val, units, comp.molecular_weight)
             exps.append(IdealExperiment(name="e", temperature=t, component=comp, permeance=perm,
                                         activation_energy=stated))
     return Membrane(name=name, ideal_experiments=IdealExperiments(experiments=exps), diffusion_curve_sets=curve_sets,
@@ -260,10 +267,7 @@ def make_curve_set(mixture, law="lawA", temps=(333.15,), basis="weight", units=U
         for x in xs:
             pair = []
             for ci, comp in ((0, mixture.first_component), (1, mixture.second_component)):
-                perm = Permeance(value=law_value(law, ci, x, t), units=Units.kg_m2_h_kPa)
-                if units != Units.kg_m2_h_kPa:
-                    perm = perm.convert(to_units=units, component=comp)
-                pair.append(perm)
+                pair.append(exact_permeance(law_value(law, ci, x, t), units, comp.molecular_weight))
             perms.append(tuple(pair))
         curves.append(DiffusionCurve(mixture=mixture, membrane_name="M", feed_temperature=t,
                                      feed_compositions=[composition(x, basis, mixture) for x in xs],
